@@ -6,7 +6,7 @@
 # number / callable) at all six severities, named stream objects, and static_asserts pinning the statement's stream type.
 import os, sys
 sys.path.insert(0, os.path.join(os.path.dirname(os.path.abspath(__file__)), ".."))
-from props.log_common import LOGGERS, SEVS, NSLOTS, CKINDS, OBJKINDS, parse_f, parse_sinks, shapes_for
+from props.log_common import LOGGERS, SEVS, NSLOTS, CKINDS, OBJKINDS, TAGTEXT, parse_f, parse_sinks, shapes_for
 
 
 def filter_type(f):
@@ -14,6 +14,10 @@ def filter_type(f):
         return "nl::filter::null_filter<R>"
     if f[0] == "T":
         return "nl::filter::severity_filter<R, %d>" % f[1]
+    if f[0] == "G":
+        return "TagIs<R, %d>" % f[1]
+    if f[0] == "H":
+        return "TagMute<R, %d>" % f[1]
     if f[0] == "N":
         return "nl::filter::not_filter<%s>" % filter_type(f[1])
     return "nl::filter::%s_filter<%s, %s>" % ("and" if f[0] == "A" else "or", filter_type(f[1]), filter_type(f[2]))
@@ -224,6 +228,25 @@ template <class R> std::string tag_of(R& r)
     return tag_of(r, std::integral_constant<bool, nl::detail::has_attribute<nl::tag_attribute, R>::value>());
 }
 
+// user-written filters that READ THE TAG of the record they are asked about (a record type without tag attribute reads as "")
+inline const char* tag_text(int k)
+{
+    static const char* const t[] = { %s };
+    return t[k];
+}
+template <class R, int K>
+struct TagIs // passes exactly the records whose tag is tag_text(K)
+{
+    typedef R record_type;
+    bool filter(R& r) const { return tag_of(r) == tag_text(K); }
+};
+template <class R, int K>
+struct TagMute // rejects exactly the records whose tag is tag_text(K)
+{
+    typedef R record_type;
+    bool filter(R& r) const { return tag_of(r) != tag_text(K); }
+};
+
 // the user's Formatter: records that it was called and with what, returns <severity digit>|tag|message
 template <class R>
 struct RecFormatter
@@ -407,7 +430,8 @@ struct LoggerTable
     void (*log)(int, const std::string&);     // logger::log(severity, record with that message)
 };
 """ % ("".join("    case severity_level::%s: return %d;\n" % (n, i) for i, n in enumerate(SEVS)),
-       "".join("    case %d: return severity_level::%s;\n" % (i, n) for i, n in enumerate(SEVS))))
+       "".join("    case %d: return severity_level::%s;\n" % (i, n) for i, n in enumerate(SEVS)),
+       ", ".join('"%s"' % t for t in TAGTEXT)))
     return o
 
 
@@ -433,7 +457,7 @@ template <int S> struct Mk;
         static type make(const std::string* tag)                                                    \\
         {                                                                                           \\
             /* the tag argument as std::string or as C string (both string_ref constructors) */     \\
-            if (tag && tag->size() % 2) return L::NAME(tag->c_str());                               \\
+            if (tag && (tag->size() + I) % 2) return L::NAME(tag->c_str());                         \\
             if (tag) return L::NAME(*tag);                                                          \\
             return L::NAME(); /* relies on the default argument */                                  \\
         }                                                                                           \\
